@@ -1,7 +1,7 @@
 (* Properties_C11.v — property C11: reinforcement learners apply exactly their documented backup.
    Only statements, each closed by [exact <lemma>] and followed by Print Assumptions. *)
 From Coq Require Import List Arith QArith Qminmax Lqa Lia Bool.
-From AIT Require Import Base.Qx Base.Mdp C11.Model C11.Spec C11.Proofs C11.ProofsTraces.
+From AIT Require Import Base.Qx Base.Mdp C11.Model C11.Spec C11.Proofs C11.ProofsTraces C11.ProofsPS C11.ProofsFix.
 Import ListNotations.
 Local Open Scope Q_scope.
 
@@ -94,4 +94,88 @@ Proof.
   split; [| split; [| vm_compute; reflexivity]].
   - unfold ex_thist. repeat constructor; cbn; try congruence; try lra.
   - unfold ex_thist. repeat constructor; cbn; lia.
+Qed.
+
+(* ---- prioritized sweeping, theta = 0: after any sequence of stepUpdateQ / batchUpdateQ calls (the
+        heap may return any maximal element on ties), V = max Q and every pair backed up so far
+        ([ps_done], ghost) is queued or satisfies Q(s,a) == R(s,a) + gamma * sum_s' T(s,a,s') V(s') *)
+Theorem ps_invariant : forall m theta ops st, wf_mdp m -> theta == 0 ->
+  Forall (ps_op_ok m) ops -> ps_run m theta ops = PsOk st -> ps_inv m st.
+Proof. exact ps_invariant_lemma. Qed.
+Print Assumptions ps_invariant.
+
+(* quiescent + every pair backed up  ==>  Q is a Bellman fixed point and V has zero residual, i.e.
+   (by C01's approx_fixpoints_close) V is value iteration's limit *)
+Theorem ps_quiescent_is_bellman : forall m st, wf_mdp m -> ps_inv m st -> ps_queue st = [] ->
+  (forall s a, (s < nS m)%nat -> (a < nA m)%nat -> In (s, a) (ps_done st)) ->
+  (forall s a, (s < nS m)%nat -> (a < nA m)%nat -> qget (ps_q st) s a == q_of m (ps_v st) s a) /\
+  residual_le m (ps_v st) 0.
+Proof. exact ps_quiescent_lemma. Qed.
+Print Assumptions ps_quiescent_is_bellman.
+
+Definition ex_mdp : mdp :=
+  {| nS := 2; nA := 1; P := [[[1#2; 1#2]; [0; 1]]]; R := [[1]; [0]]; gam := 1#2 |}.
+(* a well-formed MDP and a run (two steps, one batch of two pops) that ends with a non-empty queue *)
+Example ex_mdp_wf : wf_mdp ex_mdp.
+Proof.
+  unfold wf_mdp, ex_mdp; cbn [nS nA P R gam].
+  split; [lia|]. split; [lia|]. split; [lra|]. split; [lra|]. split; [reflexivity|]. split; [reflexivity|].
+  split; [| split].
+  - intros a Ha. assert (a = 0)%nat by lia. subst. reflexivity.
+  - intros a s Ha Hs. assert (a = 0)%nat by lia. subst.
+    destruct s as [|[|s]]; try lia; (split; [reflexivity| split; [repeat constructor; lra| cbn; lra]]).
+  - intros s Hs. destruct s as [|[|s]]; try lia; reflexivity.
+Qed.
+Example ex_ps_run :
+  match ps_run ex_mdp 0 [PsStep 0 0; PsStep 1 0; PsBatch 2 [(0%nat, 0%nat); (0%nat, 0%nat)]] with
+  | PsOk st => ps_queue st <> [] /\ length (ps_done st) = 4%nat
+  | PsBadChoice => False
+  end.
+Proof. vm_compute. split; [discriminate| reflexivity]. Qed.
+
+(* ---- DynaQ's embedded learner: direct steps and model-sampled batch steps (any sampled indices,
+        any sampled successor states, sampled rewards in [rmin,rmax]) keep the table in the box *)
+Theorem dynaq_bounded : forall nS nA alpha g rmin rmax ops,
+  0 < alpha -> alpha <= 1 -> 0 < g -> g < 1 -> rmin <= 0 -> 0 <= rmax ->
+  Forall (dyna_op_ok rmin rmax) ops ->
+  match fold_left (dyna_apply alpha g) ops (Some (qzero nS nA, [])) with
+  | Some st => in_box (rmin / (1 - g)) (rmax / (1 - g)) (fst st)
+  | None => True
+  end.
+Proof. exact dynaq_bounded_lemma. Qed.
+Print Assumptions dynaq_bounded.
+
+(* ---- fixed points: on a deterministic transition of m, one step from Q* with the sample the MDP
+        produces returns Q* (entrywise ==) *)
+Theorem ql_optimal_fixpoint : forall m alpha q s a s1,
+  is_qstar m q -> (s < nS m)%nat -> (a < nA m)%nat -> det_at m s a s1 ->
+  qeqv (ql_step alpha (gam m) q (s, a, s1, nthq (row (R m) s) a)) q.
+Proof. exact ql_optimal_fixpoint_lemma. Qed.
+Print Assumptions ql_optimal_fixpoint.
+
+Theorem hysteretic_optimal_fixpoint : forall m alpha beta q s a s1,
+  is_qstar m q -> (s < nS m)%nat -> (a < nA m)%nat -> det_at m s a s1 ->
+  qeqv (hyst_step alpha beta (gam m) q (s, a, s1, nthq (row (R m) s) a)) q.
+Proof. exact hysteretic_optimal_fixpoint_lemma. Qed.
+Print Assumptions hysteretic_optimal_fixpoint.
+
+(* evaluation learners: a table consistent with its own one-step target is left unchanged *)
+Theorem sarsa_consistent_fixpoint : forall alpha g q s a s1 a1 r,
+  qget q s a == r + g * qget q s1 a1 -> qeqv (sarsa_step alpha g q (s, a, s1, a1, r)) q.
+Proof. exact sarsa_consistent_fix. Qed.
+Print Assumptions sarsa_consistent_fixpoint.
+
+Theorem expected_sarsa_consistent_fixpoint : forall alpha g q s a s1 r prow,
+  qget q s a == r + g * dot prow (row q s1) -> qeqv (esarsa_step alpha g q (s, a, s1, r, prow)) q.
+Proof. exact esarsa_consistent_fix. Qed.
+Print Assumptions expected_sarsa_consistent_fixpoint.
+
+(* a deterministic 2-state MDP (0 -> 1 -> 1, rewards 1 then 2, gamma 1/2) and its Q* = [[3],[4]] *)
+Definition ex_det : mdp := {| nS := 2; nA := 1; P := [[[0; 1]; [0; 1]]]; R := [[1]; [2]]; gam := 1#2 |}.
+Example ex_qstar : is_qstar ex_det [[3]; [4]] /\ det_at ex_det 0 0 1.
+Proof.
+  split.
+  - intros s a Hs Ha. cbn in Hs, Ha. assert (a = 0)%nat by lia. subst.
+    destruct s as [|[|s]]; try lia; vm_compute; reflexivity.
+  - intros v. unfold det_at, trow, ex_det, row, nthq. cbn [P nth]. destruct v as [|x [|y v]]; cbn [dot nth]; lra.
 Qed.
